@@ -25,7 +25,7 @@ INFO = {
     "assumptions": ["a freshly constructed DefaultArgsParser is the reference for 'what a fresh parser gives'"],
 }
 EXPECTED_PROBES = ("failed_parse_then_reuse", "option_set_then_other_format", "lenient_after_strict",
-                   "same_format_twice", "string_args")
+                   "same_format_twice", "string_args", "same_raw_args_object_again")
 
 
 def gen(S, tier):
@@ -46,6 +46,14 @@ def gen(S, tier):
             kind = "string"
         reqs.append({"fmt": k, "tokens": toks, "lenient": w.chance(0.3), "raw": kind, "notes": notes,
                      "script": w.pick(["prog", "prog", "prog", "-c", "", "python -m tool", "/usr/bin/app", "/opt/tool/__main__.py", "__main__.py"])})
+    # the caller parses the very same raw-arguments object again (same format), in the other mode or the same
+    x = S("extension")
+    for i in range(len(reqs) - 1, -1, -1):
+        if x.chance(0.12):
+            again = dict(reqs[i], again=True, notes=list(reqs[i]["notes"]) + ["same raw args object again"])
+            if x.chance(0.7):
+                again["lenient"] = not reqs[i]["lenient"]
+            reqs.insert(i + 1, again)
     # a fraction of the histories is also compared, request by request, with a parse done in a process
     # of its own: a fresh interpreter state under another PYTHONHASHSEED (dsim.zygote peer)
     peer = S("config").chance(0.025)
@@ -214,6 +222,7 @@ def execute(sc):
     P = DefaultArgsParser()
     earlier_dirty = False
     prev = []
+    last_raw = None
     for i, rq in enumerate(sc["requests"]):
         if rq["fmt"] >= len(formats):
             continue
@@ -223,7 +232,12 @@ def execute(sc):
         if rq["raw"] == "string":
             res.probe("string_args")
         script = rq.get("script", "prog")
-        raw, argv = _raw(rq["raw"], tokens, script)
+        if rq.get("again") and last_raw is not None and last_raw[0] == (rq["fmt"], rq["raw"], tokens, script):
+            raw, argv = last_raw[1]
+            res.probe("same_raw_args_object_again")
+        else:
+            raw, argv = _raw(rq["raw"], tokens, script)
+        last_raw = ((rq["fmt"], rq["raw"], tokens, script), (raw, argv))
         # wrapping an argv list as raw arguments must not alter the list either
         argv_before = ([script] + list(tokens)) if argv is not None else None
         tok_obj, opt_obj = raw.tokens, raw.option_tokens
